@@ -1,6 +1,476 @@
-import Netpol.Model.Ingress
-import Netpol.Spec.Ingress
+import Netpol.Proofs.IngressLayer
+
+/-! C10: the ingress-controller lines.
+
+For every workload the tool reports which of its ports the ingress controller can reach through
+an Ingress or Route, a Service and the network policies. The model of the Go ingress analyzer is
+`Netpol.Model.Ingress` (`accessPorts`, `podExposedTCP`, `peerConnection`, `services`, `targets`,
+`lookupSvc`, `allowedIngress`, `ingressEntries`); the specification is `Netpol.Spec.Ingress`
+(`designated`, `reachedPort`, `nsTargets`, `targeted`, `ingressPorts`). The theorems compare the
+model with the `lenient := true` variant of the specification, which is the tool's reading: an
+Ingress `port.number` also selects a service port whose *targetPort* has that number (the model
+passes `byTargetPort = true` for Ingress backends, as the Go code does; known finding).
+`chosen_ingress_number_strict` shows that this flag is the only source of the deviation, and the
+last example exhibits it.
+
+The theorems follow the layers of the analyzer:
+
+* G  `podExposedTCP`: the TCP container ports of a pod.
+* H  `accessPorts` / `peerConnection`: one backend against one Service and one selected pod.
+* I  `allowedIngress` / `ingressEntries`: all Ingresses, Routes and Services of the input; the
+     connection per workload (`ingress_lines_exact`, `ingress_entry_exact`, `entry_iff_targeted`);
+     the reported lines and the blocked workloads (`line_iff`, `blocked_iff`), the latter also
+     against the specification (`blocked_spec`) and, through the engine theorem, against
+     `Spec.allowed` (`blocked_end_to_end`).
+
+Hypotheses (all in `Netpol.IngressLayer`; each is needed, see the counterexamples below):
+
+* `ValidPod p`: container ports are in 1..65535 (needed for well-formedness of the computed
+  sets, and for "a named port resolves to a number ≥ 0").
+* `ValidSvcPorts sps`: service port numbers are ≥ 1 (a required Ingress *name* has `intVal = 0`
+  and the Go code also compares numbers, so a service port 0 would match every name); a named
+  targetPort is not the empty string (the Go code treats `""` as "no targetPort" and falls back
+  to the port number, the specification looks for a container port named `""`); given service
+  port names are distinct (the Go code takes the first port of that name, the specification all).
+* `ValidBackend b`: an Ingress backend has a non-empty port name or a non-zero port number (for
+  the zero value the Go code takes *every* service port).
+* `ValidRoute r`: a Route's `port.targetPort`, when present, is not `0` / `""` (same reason).
+* `SvcUnique objs`: no two Service documents share namespace and name (the Go map keeps the last
+  Service of that name among those selecting some workload; the specification keeps the last one
+  selecting *this* workload).
+* `(owners.map (·.1)).Nodup`: workload names are distinct (the merge is by name).
+
+`ValidInput objs owners` bundles them for a whole input. Kubernetes / OpenShift API validation
+guarantees all of them for objects accepted by a cluster. -/
 namespace Netpol.Properties.C10
-open Netpol
+open Netpol Netpol.IngressA Netpol.Spec Netpol.Engine Netpol.IngressLayer
+
+/-! ### G. the TCP ports a pod exposes -/
+
+/-- `PodExposedTCPConnections` holds exactly the TCP container ports (no hypothesis needed) -/
+theorem podExposedTCP_den (p : Pod) (x : Int) :
+    (podExposedTCP p).den .TCP x ↔ ∃ c ∈ p.ports, c.proto = .TCP ∧ c.port = x :=
+  IngressLayer.podExposedTCP_den p x
+
+/-- for a pod with legal port numbers the set is well-formed and has no UDP or SCTP points -/
+theorem podExposedTCP_wf {p : Pod} (hp : ValidPod p) :
+    (podExposedTCP p).WF ∧ (∀ x, ¬ (podExposedTCP p).den .UDP x) ∧
+      (∀ x, ¬ (podExposedTCP p).den .SCTP x) :=
+  let h := podExposedTCP_tcpOnly hp
+  ⟨h.wf, h.noUDP, h.noSCTP⟩
+
+/-- `Contains` on that set is membership among the TCP container ports, for every integer -/
+theorem podExposedTCP_contains {p : Pod} (hp : ValidPod p) (n : Int) :
+    (podExposedTCP p).contains .TCP n = true ↔ ∃ c ∈ p.ports, c.proto = .TCP ∧ c.port = n :=
+  contains_exposed hp n
+
+/-! ### H. one backend, one Service, one pod -/
+
+/-- `getPeerAccessPort` returns the access ports of the service ports it selects (`chosen`: all
+ports for the zero value of the required port, else the first port matching it) -/
+theorem accessPorts_eq_chosen (sps : List SvcPort) (req : IOS) (byT : Bool) :
+    accessPorts sps req byT = (chosen sps req byT).map access :=
+  accessPorts_eq sps req byT
+
+/-- Ingress `port.number` `n ≠ 0`: the first service port whose number or targetPort number is
+`n` (the lenient designator) -/
+theorem accessPorts_ingress_number {n : Int} (hn : n ≠ 0) (sps : List SvcPort) :
+    accessPorts sps { intVal := n } true = (designated (.byNumberLenient n) sps).map access := by
+  rw [accessPorts_eq, chosen_ingress_number hn]
+
+/-- Ingress `port.name` `s ≠ ""`: the service port of that name, for port numbers ≥ 1 and
+distinct port names; with or without the targetPort comparison -/
+theorem accessPorts_ingress_name {s : String} (hs : s ≠ "") {sps : List SvcPort} (byT : Bool)
+    (hport : ∀ sp ∈ sps, 1 ≤ sp.port) (hu : UniqueNames sps) :
+    accessPorts sps { strVal := s } byT = (designated (.byName s) sps).map access := by
+  rw [accessPorts_eq, chosen_ingress_name hs byT hport hu]
+
+/-- Route without `port`: every service port -/
+theorem accessPorts_route_all (sps : List SvcPort) (byT : Bool) :
+    accessPorts sps {} byT = (designated .all sps).map access := by
+  rw [accessPorts_eq, chosen_route_all]
+
+/-- Route `port.targetPort` number `n ≠ 0`: the first service port whose number or targetPort
+number is `n` -/
+theorem accessPorts_route_number {n : Int} (hn : n ≠ 0) (sps : List SvcPort) :
+    accessPorts sps { intVal := n } true = (designated (.routeNum n) sps).map access := by
+  rw [accessPorts_eq, chosen_route_number hn]
+
+/-- Route `port.targetPort` name `s ≠ ""`: the first service port with that name or that named
+targetPort, for port numbers ≥ 1 -/
+theorem accessPorts_route_name {s : String} (hs : s ≠ "") {sps : List SvcPort}
+    (hport : ∀ sp ∈ sps, 1 ≤ sp.port) :
+    accessPorts sps { strVal := s, isStr := true } true =
+      (designated (.routeName s) sps).map access := by
+  rw [accessPorts_eq, chosen_route_name hs hport]
+
+/-- any valid Ingress backend against any valid Service -/
+theorem accessPorts_backend {b : IngBackend} (hb : ValidBackend b) {sps : List SvcPort}
+    (hs : ValidSvcPorts sps) :
+    accessPorts sps (backendPort b) true =
+      (designated (backendDesignator true b) sps).map access := by
+  rw [accessPorts_eq, chosen_backend hb hs]
+
+/-- any valid Route against any valid Service -/
+theorem accessPorts_route {r : Route} (hr : ValidRoute r) {sps : List SvcPort}
+    (hs : ValidSvcPorts sps) :
+    accessPorts sps (routePort r) true = (designated (routeDesignator r) sps).map access := by
+  rw [accessPorts_eq, chosen_route hr hs]
+
+/-- the strict reading is what the code would compute without the targetPort comparison (for
+Services with distinct port numbers) -/
+theorem accessPorts_ingress_number_strict {n : Int} (hn : n ≠ 0) {sps : List SvcPort}
+    (hu : sps.Pairwise (fun a b => a.port ≠ b.port)) :
+    accessPorts sps { intVal := n } false = (designated (.byNumber n) sps).map access := by
+  rw [accessPorts_eq, chosen_ingress_number_strict hn hu]
+
+/-- one iteration of `getIngressPeerConnection`: the access port of service port `sp` yields
+port `x`, and the pod exposes `x` on TCP, exactly when the specification says `sp` reaches `x` -/
+theorem peerConnection_step {p : Pod} (hp : ValidPod p) {sp : SvcPort} (hs : ValidTarget sp)
+    (x : Int) :
+    (stepPort p (access sp) = some x ∧ ∃ c ∈ p.ports, c.proto = .TCP ∧ c.port = x) ↔
+      reachedPort p sp = some x :=
+  IngressLayer.peerConnection_step hp hs x
+
+/-- `getIngressPeerConnection`: the TCP points are the ports reached through the selected
+service ports -/
+theorem peerConnection_spec {p : Pod} (hp : ValidPod p) {sps : List SvcPort}
+    (hs : ∀ sp ∈ sps, ValidTarget sp) (req : IOS) (byT : Bool) (x : Int) :
+    (peerConnection p sps req byT).den .TCP x ↔
+      ∃ sp ∈ chosen sps req byT, reachedPort p sp = some x := by
+  rw [peerConnection_den hp hs, List.mem_filterMap]
+
+/-- the set is well-formed and has no UDP or SCTP points -/
+theorem peerConnection_wf {p : Pod} (hp : ValidPod p) (sps : List SvcPort) (req : IOS)
+    (byT : Bool) :
+    (peerConnection p sps req byT).WF ∧ (∀ x, ¬ (peerConnection p sps req byT).den .UDP x) ∧
+      (∀ x, ¬ (peerConnection p sps req byT).den .SCTP x) :=
+  let h := peerConnection_tcpOnly hp sps req byT
+  ⟨h.wf, h.noUDP, h.noSCTP⟩
+
+/-- an Ingress backend: the TCP points are the specification's ports for its (lenient)
+designator -/
+theorem peerConnection_backend {p : Pod} (hp : ValidPod p) {sps : List SvcPort}
+    (hs : ValidSvcPorts sps) {b : IngBackend} (hb : ValidBackend b) (x : Int) :
+    (peerConnection p sps (backendPort b) true).den .TCP x ↔
+      x ∈ (designated (backendDesignator true b) sps).filterMap (reachedPort p) := by
+  rw [peerConnection_den hp hs.target, chosen_backend hb hs]
+
+/-- a Route: the TCP points are the specification's ports for its designator -/
+theorem peerConnection_route {p : Pod} (hp : ValidPod p) {sps : List SvcPort}
+    (hs : ValidSvcPorts sps) {r : Route} (hr : ValidRoute r) (x : Int) :
+    (peerConnection p sps (routePort r) true).den .TCP x ↔
+      x ∈ (designated (routeDesignator r) sps).filterMap (reachedPort p) := by
+  rw [peerConnection_den hp hs.target, chosen_route hr hs]
+
+/-! ### I. the whole input -/
+
+/-- for a workload `(n, w)` of a valid input: port `x` is one of the specification's ingress
+ports of `w` (lenient reading) exactly when `AllowedIngressConnections` has an entry for `n`
+holding TCP port `x`. In particular: no result, or no entry for `n`, exactly when the
+specification's list is empty. -/
+theorem ingress_lines_exact {objs : List Obj} {owners : List (String × Pod)}
+    (hv : ValidInput objs owners) {n : String} {w : Pod} (hw : (n, w) ∈ owners) (x : Int) :
+    x ∈ ingressPorts objs w true ↔
+      ∃ l p c, allowedIngress objs owners = some l ∧ (n, p, c) ∈ l ∧ c.den .TCP x :=
+  IngressLayer.ingress_lines_exact hv hw x
+
+/-- the result has at most one entry per workload name -/
+theorem allowedIngress_nodup {objs : List Obj} {owners : List (String × Pod)}
+    (hv : ValidInput objs owners) {l : List (String × Pod × ConnSet)}
+    (hl : allowedIngress objs owners = some l) : (l.map (·.1)).Nodup :=
+  (allowedIngress_entries hv hl).1
+
+/-- every entry is a workload of the input with its own pod; its connection set is well-formed,
+has no UDP or SCTP points, and its TCP points are exactly the specification's ingress ports -/
+theorem ingress_entry_exact {objs : List Obj} {owners : List (String × Pod)}
+    (hv : ValidInput objs owners) {l : List (String × Pod × ConnSet)}
+    (hl : allowedIngress objs owners = some l) {n : String} {p : Pod} {c : ConnSet}
+    (hm : (n, p, c) ∈ l) :
+    (n, p) ∈ owners ∧ c.WF ∧ (∀ x, ¬ c.den .UDP x) ∧ (∀ x, ¬ c.den .SCTP x) ∧
+      ∀ x, c.den .TCP x ↔ x ∈ ingressPorts objs p true :=
+  let ⟨h1, h2, h3⟩ := entry_den hv hl hm
+  ⟨h1, h2.wf, h2.noUDP, h2.noSCTP, h3⟩
+
+/-- a workload has an entry exactly when the specification calls it targeted -/
+theorem entry_iff_targeted {objs : List Obj} {owners : List (String × Pod)}
+    (hv : ValidInput objs owners) {n : String} {w : Pod} (hw : (n, w) ∈ owners) :
+    targeted objs w = true ↔ ∃ l p c, allowedIngress objs owners = some l ∧ (n, p, c) ∈ l :=
+  IngressLayer.entry_iff_targeted hv hw
+
+/-- `getIngressAllowedConnections`, blocked list: `n` is reported as blocked exactly when it has
+an `AllowedIngressConnections` entry that passes the focus filter and whose intersection with
+the policy connection (ingress controller → workload, computed without error) is empty. No
+hypothesis on the input. -/
+theorem blocked_iff {eng : Engine} {objs : List Obj} {owners : List (String × Pod)}
+    {focus : String} {entries : List Entry} {blocked : List String}
+    (h : ingressEntries eng objs owners focus = .ok (entries, blocked)) (n : String) :
+    n ∈ blocked ↔ ∃ l p c, allowedIngress objs owners = some l ∧ (n, p, c) ∈ l ∧
+      focused focus n p = true ∧ ∃ pc, policyConn (ingressEngine eng) n p = .ok pc ∧
+        (c.inter pc).isEmpty = true :=
+  IngressLayer.blocked_iff h n
+
+/-- `getIngressAllowedConnections`, lines: there is a line ingress controller → `(n, p)` with
+connection `r` exactly when `(n, p)` has an entry passing the focus filter and `r` is its
+non-empty intersection with the policy connection -/
+theorem line_iff {eng : Engine} {objs : List Obj} {owners : List (String × Pod)}
+    {focus : String} {entries : List Entry} {blocked : List String}
+    (h : ingressEntries eng objs owners focus = .ok (entries, blocked)) (n : String) (p : Pod)
+    (r : ConnSet) :
+    (∃ x ∈ entries, x.src = ingressSrc ∧ x.dst = LPeer.wl n p ∧ x.conn = r) ↔
+      ∃ l c, allowedIngress objs owners = some l ∧ (n, p, c) ∈ l ∧
+        focused focus n p = true ∧ ∃ pc, policyConn (ingressEngine eng) n p = .ok pc ∧
+          r = c.inter pc ∧ r.isEmpty = false :=
+  IngressLayer.line_iff h n p r
+
+/-- every reported line runs from the ingress-controller peer to a workload -/
+theorem lines_shape {eng : Engine} {objs : List Obj} {owners : List (String × Pod)}
+    {focus : String} {entries : List Entry} {blocked : List String}
+    (h : ingressEntries eng objs owners focus = .ok (entries, blocked)) :
+    ∀ x ∈ entries, x.src = ingressSrc ∧ ∃ n p, x.dst = LPeer.wl n p := by
+  rw [ingressEntries_eq] at h
+  cases hl : allowedIngress objs owners with
+  | none =>
+    rw [hl] at h
+    simp only [Except.ok.injEq, Prod.mk.injEq] at h
+    rw [← h.1]
+    intro x hx
+    cases hx
+  | some l =>
+    rw [hl] at h
+    exact line_shape l h (fun x hx => by cases hx)
+
+/-- the blocked list against the specification: for a valid input and a workload `(n, w)` whose
+policy connection, when computed, is well-formed (`EngineLayer.peerConns_spec` gives this for
+valid engines), `n` is blocked exactly when it passes the focus filter, is targeted, and the
+policies allow none of its ingress ports on TCP -/
+theorem blocked_spec {eng : Engine} {objs : List Obj} {owners : List (String × Pod)}
+    {focus : String} {entries : List Entry} {blocked : List String}
+    (hv : ValidInput objs owners)
+    (h : ingressEntries eng objs owners focus = .ok (entries, blocked)) {n : String} {w : Pod}
+    (hw : (n, w) ∈ owners)
+    (hpc : ∀ pc, policyConn (ingressEngine eng) n w = .ok pc → pc.WF) :
+    n ∈ blocked ↔ focused focus n w = true ∧ targeted objs w = true ∧
+      ∃ pc, policyConn (ingressEngine eng) n w = .ok pc ∧
+        ∀ x ∈ ingressPorts objs w true, ¬ pc.den .TCP x := by
+  rw [IngressLayer.blocked_iff h n]
+  constructor
+  · rintro ⟨l, p, c, hl, hm, hf, pc, hp, he⟩
+    obtain ⟨ho, ht, hd⟩ := entry_den hv hl hm
+    have : p = w := pair_unique hv.ownerNames ho hw
+    subst this
+    refine ⟨hf, (IngressLayer.entry_iff_targeted hv hw).mpr ⟨l, p, c, hl, hm⟩, pc, hp, ?_⟩
+    intro x hx hpx
+    exact (inter_isEmpty_iff ht (hpc pc hp)).mp he x ⟨(hd x).mpr hx, hpx⟩
+  · rintro ⟨hf, ht, pc, hp, hno⟩
+    obtain ⟨l, p, c, hl, hm⟩ := (IngressLayer.entry_iff_targeted hv hw).mp ht
+    obtain ⟨ho, htc, hd⟩ := entry_den hv hl hm
+    have : p = w := pair_unique hv.ownerNames ho hw
+    subst this
+    refine ⟨l, p, c, hl, hm, hf, pc, hp, ?_⟩
+    rw [inter_isEmpty_iff htc (hpc pc hp)]
+    rintro x ⟨h1, h2⟩
+    exact hno x ((hd x).mp h1) h2
+
+/-- end to end, through the engine theorem (`EngineLayer.peerConns_spec`): for a valid input, a
+valid engine and a real workload `(n, w)` other than the ingress-controller pod itself, `n` is
+reported as blocked exactly when it passes the focus filter, is targeted, its namespace is known
+to the engine, and `Spec.allowed` (ingress-controller pod → workload pod) grants none of the
+specification's ingress ports on TCP -/
+theorem blocked_end_to_end {eng : Engine} {objs : List Obj} {owners : List (String × Pod)}
+    {focus : String} {entries : List Entry} {blocked : List String}
+    (hv : ValidInput objs owners) (he : eng.Valid)
+    (h : ingressEntries eng objs owners focus = .ok (entries, blocked)) {n : String} {w : Pod}
+    (hw : (n, w) ∈ owners) (hrep : w.isRepresentative = false)
+    (hne : (ingressPod.name == w.name && ingressPod.ns == w.ns) = false) :
+    n ∈ blocked ↔ focused focus n w = true ∧ targeted objs w = true ∧
+      ∃ nsI nsW, (ingressEngine eng).findNs ingressPod.ns = some nsI ∧
+        (ingressEngine eng).findNs w.ns = some nsW ∧
+        ∀ x ∈ ingressPorts objs w true,
+          Spec.allowed (ingressEngine eng).toView (.pod ingressPod nsI.labels)
+            (.pod w nsW.labels) .TCP x = false := by
+  have hp : ValidPod w := hv.pods _ hw
+  rw [blocked_spec hv h hw (fun pc hpc => (policyConn_spec he hrep hp hne hpc).1)]
+  constructor
+  · rintro ⟨hf, ht, pc, hpc, hno⟩
+    obtain ⟨_, nsI, nsW, h1, h2, hd⟩ := policyConn_spec he hrep hp hne hpc
+    refine ⟨hf, ht, nsI, nsW, h1, h2, fun x hx => ?_⟩
+    have := hno x hx
+    rw [hd] at this
+    simpa using this
+  · rintro ⟨hf, ht, nsI, nsW, h1, h2, hno⟩
+    obtain ⟨pc, hpc⟩ := policyConn_ok (n := n) he hrep hp hne h1 h2
+    obtain ⟨_, nsI', nsW', h1', h2', hd⟩ := policyConn_spec he hrep hp hne hpc
+    rw [h1] at h1'
+    rw [h2] at h2'
+    cases h1'
+    cases h2'
+    refine ⟨hf, ht, pc, hpc, fun x hx => ?_⟩
+    rw [hd, hno x hx]
+    decide
+
+/-! ### non-vacuity: a pod, a Service, an Ingress by number and by name -/
+
+def exPorts : List CPort := [⟨"http", .TCP, 8080⟩, ⟨"metrics", .TCP, 9090⟩, ⟨"dns", .UDP, 53⟩]
+
+def exPod : Pod := { ns := "default", name := "web-1", labels := [("app", "web")], ports := exPorts }
+
+def exSvcPorts : List SvcPort :=
+  [⟨"web", 80, some 8080, none, .TCP⟩, ⟨"mon", 9000, none, some "metrics", .TCP⟩]
+
+def exSvc : Service :=
+  { ns := "default", name := "web-svc", selector := [("app", "web")], ports := exSvcPorts }
+
+def exBackends : List (List IngBackend) := [[⟨"web-svc", none, some "mon"⟩]]
+
+def exIng : Ingress :=
+  { ns := "default", name := "ing", default := some ⟨"web-svc", some 80, none⟩, rules := exBackends }
+
+def exObjs : List Obj := [.svc exSvc, .ing exIng]
+
+def exOwners : List (String × Pod) := [("default/web-1[Pod]", exPod)]
+
+/-- the exposed TCP ports: 8080 and 9090, not the UDP port -/
+example : (podExposedTCP exPod).den .TCP 8080 ∧ (podExposedTCP exPod).den .TCP 9090 ∧
+    ¬ (podExposedTCP exPod).den .TCP 53 ∧ ¬ (podExposedTCP exPod).den .UDP 53 := by decide
+
+/-- backend by number 80 → service port "web" → targetPort 8080 -/
+example : accessPorts exSvcPorts { intVal := 80 } true = [{ intVal := 8080 }] := by decide
+
+example : (peerConnection exPod exSvcPorts { intVal := 80 } true).den .TCP 8080 ∧
+    ¬ (peerConnection exPod exSvcPorts { intVal := 80 } true).den .TCP 9090 := by decide
+
+/-- backend by name "mon" → service port "mon" → named targetPort "metrics" → 9090 -/
+example : accessPorts exSvcPorts { strVal := "mon" } true =
+    [{ strVal := "metrics", isStr := true }] := by decide
+
+example : (peerConnection exPod exSvcPorts { strVal := "mon" } true).den .TCP 9090 := by decide
+
+/-- the specification and the model on the whole input -/
+example : ingressPorts exObjs exPod true = [8080, 9090] := by decide
+
+example : targeted exObjs exPod = true := by decide
+
+example : (allowedIngress exObjs exOwners).map (fun l => l.map fun (n, _, c) => (n, c.toStr)) =
+    some [("default/web-1[Pod]", "TCP 8080,9090")] := by decide
+
+/-- the example satisfies every hypothesis -/
+example : ValidInput exObjs exOwners where
+  ownerNames := by decide
+  pods := by decide
+  svcPorts := by
+    intro s hs
+    simp only [exObjs, List.mem_cons, Obj.svc.injEq, reduceCtorEq, List.not_mem_nil, or_false] at hs
+    subst hs
+    exact ⟨by decide, by decide, by decide⟩
+  svcUnique := by
+    intro s₁ s₂ h₁ h₂ _ _
+    simp only [exObjs, List.mem_cons, Obj.svc.injEq, reduceCtorEq, List.not_mem_nil, or_false]
+      at h₁ h₂
+    rw [h₁, h₂]
+  backends := by
+    intro i hi
+    simp only [exObjs, List.mem_cons, Obj.ing.injEq, reduceCtorEq, List.not_mem_nil, or_false,
+      false_or] at hi
+    subst hi
+    intro b hb
+    simp only [ingBackends, exIng, exBackends, List.flatMap_cons, List.flatMap_nil, id,
+      List.cons_append, List.nil_append, List.append_nil, List.mem_cons, List.not_mem_nil,
+      or_false] at hb
+    rcases hb with rfl | rfl
+    · exact Or.inr (by decide)
+    · exact Or.inl ⟨"mon", rfl, by decide⟩
+  routes := by
+    intro r hr
+    simp [exObjs] at hr
+
+/-- Routes: without port (every service port), by targetPort name, by targetPort number -/
+def exRoute (num : Option Int) (name : Option String) : Route :=
+  { ns := "default", name := "rt", toKind := "Service", toName := "web-svc", alternates := [],
+    targetPortNum := num, targetPortName := name }
+
+example : ingressPorts [.svc exSvc, .route (exRoute none none)] exPod true = [8080, 9090] ∧
+    ingressPorts [.svc exSvc, .route (exRoute none (some "metrics"))] exPod true = [9090] ∧
+    ingressPorts [.svc exSvc, .route (exRoute (some 8080) none)] exPod true = [8080] := by decide
+
+example : (allowedIngress [.svc exSvc, .route (exRoute none (some "metrics"))] exOwners).map
+      (fun l => l.map fun (n, _, c) => (n, c.toStr)) =
+        some [("default/web-1[Pod]", "TCP 9090")] := by decide
+
+/-- `getIngressAllowedConnections` without policies (one line) and under a deny-all ingress policy
+(no line, the workload is reported as blocked) -/
+def denyAll : NetPol :=
+  { ns := "default", name := "deny", podSel := ⟨[], []⟩, types := [.ingress], ingress := [], egress := [] }
+
+def exEngine (pols : List NetPol) : Engine :=
+  { namespaces := [⟨"default", [(nsNameLabelKey, "default")]⟩], pods := [exPod], netpols := pols }
+
+example : (ingressEntries (exEngine []) exObjs exOwners "").toOption.map
+    (fun r => (r.1.map (fun x => (x.src.str, x.dst.str, x.conn.toStr)), r.2)) =
+    some ([("{ingress-controller}", "default/web-1[Pod]", "TCP 8080,9090")], []) := by decide
+
+example : (ingressEntries (exEngine [denyAll]) exObjs exOwners "").toOption.map
+    (fun r => (r.1.length, r.2)) = some (0, ["default/web-1[Pod]"]) := by decide
+
+/-! ### each hypothesis is needed -/
+
+/-- container port out of range: the exposed set is not well-formed -/
+example : ¬ (podExposedTCP { exPod with ports := [⟨"x", .TCP, 70000⟩] }).WF := by decide
+
+/-- Ingress port number 0 (`ValidBackend`): the code takes every service port, the specification
+the ports numbered 0 -/
+example : accessPorts exSvcPorts { intVal := 0 } true ≠
+    (designated (.byNumberLenient 0) exSvcPorts).map access := by decide
+
+/-- a service port numbered 0 (`ValidSvcPorts.port`) matches every Ingress port name -/
+example : accessPorts [⟨"x", 0, none, none, .TCP⟩, ⟨"web", 80, none, none, .TCP⟩]
+      { strVal := "web" } true ≠
+    (designated (.byName "web") [⟨"x", 0, none, none, .TCP⟩, ⟨"web", 80, none, none, .TCP⟩]).map
+      access := by decide
+
+/-- two service ports of one name (`ValidSvcPorts.names`): first match against all matches -/
+example : accessPorts [⟨"web", 80, none, none, .TCP⟩, ⟨"web", 81, none, none, .TCP⟩]
+      { strVal := "web" } true ≠
+    (designated (.byName "web") [⟨"web", 80, none, none, .TCP⟩, ⟨"web", 81, none, none, .TCP⟩]).map
+      access := by decide
+
+/-- an empty named targetPort (`ValidTarget`): the code falls back to the service port number,
+the specification resolves the name `""` to the first unnamed container port -/
+example :
+    let p : Pod := { exPod with ports := [⟨"", .TCP, 9090⟩] }
+    let sp : SvcPort := ⟨"web", 80, none, some "", .TCP⟩
+    stepPort p (access sp) = some 80 ∧ reachedPort p sp = some 9090 := by decide
+
+/-- Route targetPort 0 and `""` (`ValidRoute`): every service port against the first match -/
+example : accessPorts exSvcPorts { intVal := 0 } true ≠
+    (designated (.routeNum 0) exSvcPorts).map access := by decide
+
+example : accessPorts exSvcPorts { strVal := "", isStr := true } true ≠
+    (designated (.routeName "") exSvcPorts).map access := by decide
+
+/-- two Service documents with one name (`SvcUnique`): the code keeps the later one, which here
+selects another workload, so the workload selected by the earlier one gets no entry although the
+specification gives it port 8080 -/
+def otherPod : Pod := { ns := "default", name := "db-1", labels := [("app", "db")], ports := exPorts }
+
+def dupObjs : List Obj :=
+  [.svc exSvc, .svc { exSvc with selector := [("app", "db")] }, .ing exIng]
+
+def dupOwners : List (String × Pod) := [("default/web-1[Pod]", exPod), ("default/db-1[Pod]", otherPod)]
+
+example : ingressPorts dupObjs exPod true = [8080, 9090] ∧
+    (allowedIngress dupObjs dupOwners).map (fun l => l.map (·.1)) =
+      some ["default/db-1[Pod]"] := by decide
+
+/-- the known finding: Ingress `port.number: 8080` is not a port of the Service (its port is 80,
+targetPort 8080); the tool's lenient reading reaches 8080, the strict reading nothing -/
+def findingIng : Ingress :=
+  { ns := "default", name := "ing", default := some ⟨"web-svc", some 8080, none⟩, rules := [] }
+
+example : ingressPorts [.svc exSvc, .ing findingIng] exPod true = [8080] ∧
+    ingressPorts [.svc exSvc, .ing findingIng] exPod false = [] ∧
+    (allowedIngress [.svc exSvc, .ing findingIng] exOwners).map
+      (fun l => l.map fun (n, _, c) => (n, c.toStr)) =
+        some [("default/web-1[Pod]", "TCP 8080")] := by decide
 
 end Netpol.Properties.C10
